@@ -325,6 +325,7 @@ var c19Classes = []c19Class{
 	{"conversion", func(c string) string { return "aton(" + c + ")" }, "\"zz\"", "\"12\""},
 	{"cond-not-bool", func(c string) string { return "pick(" + c + ")" }, "3", "true"},
 	{"nil-assign", func(c string) string { return "asg(" + c + ")" }, "nosuchname", "2"},
+	{"cond-int-from-logic", func(c string) string { return "pickb(" + c + ")" }, "6", "true"},
 	{"builtin-arg-type", func(c string) string { return "cnt(" + c + ")" }, "5", "[1]"},
 }
 
@@ -332,6 +333,7 @@ var c19Helpers = []string{
 	"one = (a) -> a",
 	"pick = (c) -> if c {\n1\n} else {\n2\n}",
 	"asg = (c) -> {\nz = c\n1\n}",
+	"pickb = (c) -> {\nn = 0\nif c & c {\nn = 1\n}\nwhile c | c {\nreturn n + 2\n}\nn\n}",
 	"cnt = (c) -> {\nn = 0\nfor e <- elems(c) {\nn = n + 1\n}\nn\n}",
 	"map = (f, it) -> for e <- it() yield f(e)",
 }
